@@ -134,6 +134,7 @@ def start_change_stop(versions, fmts):
 
 
 def build(tier):
+    P.contract()  # tabulated once here, inherited by every forked explorer
     q = tier == "quick"
     shapes = [[], ["sleep", "awake"]] if q else [[], ["sleep", "awake"], ["awake", "sleep"],
                                                   ["sleep_old", "bare"]]
